@@ -32,9 +32,9 @@ RC_POOL = [str(k) for k in (1, 2, 3, 4, 5, 6)]
 HINT_POOL = [str(k) for k in (501, 502, 503, 504)]
 FC_POOL = [str(k) for k in (901, 902, 903, 904, 905)]
 # boundaries of the documented key ranges
-RC_EDGE = ["1", "499", "2000", "2499", "250", "2222"]
-HINT_EDGE = ["500", "900", "700"]
-FC_EDGE = ["901", "999", "950"]
+RC_EDGE = ["1", "499", "2000", "2499", "250", "2222", "01", "007"]  # incl. keys written with leading zeros: keys are what is written
+HINT_EDGE = ["500", "900", "700", "0501"]
+FC_EDGE = ["901", "999", "950", "0901", "00950"]
 
 PREC = {"or": 1, "xor": 2, "and": 3, "then": 4}
 
